@@ -4,7 +4,10 @@ import (
 	"bytes"
 	"crypto"
 	"crypto/ed25519"
+	"crypto/x509"
+	"encoding/base64"
 	"fmt"
+	"math/big"
 	"time"
 
 	"github.com/miekg/dns"
@@ -215,6 +218,49 @@ func runC18(c *Ctx) {
 		}
 	}
 	_ = crypto.SHA1
+	// RSA keys of every supported modulus size up to the 4096-bit maximum (fixed keys, rsakeys.go): SIG(0) made with the
+	// private key verifies with the KEY built from the public key
+	for _, bits := range []int{1024, 2048, 3072, 4096} {
+		der, _ := base64.StdEncoding.DecodeString(rsaKeysDER[bits])
+		priv, err := x509.ParsePKCS1PrivateKey(der)
+		if err != nil {
+			continue
+		}
+		eb := big.NewInt(int64(priv.PublicKey.E)).Bytes()
+		pk := append([]byte{byte(len(eb))}, eb...)
+		pk = append(pk, priv.PublicKey.N.Bytes()...)
+		for _, alg := range []uint8{dns.RSASHA256, dns.RSASHA512} {
+			k := &dns.KEY{DNSKEY: dns.DNSKEY{Hdr: dns.RR_Header{Name: "signer.example.", Rrtype: dns.TypeKEY, Class: 1, Ttl: 0}, Flags: 256, Protocol: 3, Algorithm: alg,
+				PublicKey: base64.StdEncoding.EncodeToString(pk)}}
+			m := new(dns.Msg)
+			m.SetQuestion("rsa.example.", dns.TypeA)
+			s := new(dns.SIG)
+			s.Hdr = dns.RR_Header{Name: ".", Rrtype: dns.TypeSIG, Class: dns.ClassANY, Ttl: 0}
+			s.Algorithm, s.KeyTag, s.SignerName = alg, k.KeyTag(), "signer.example."
+			s.Inception, s.Expiration = uint32(time.Now().Unix()-300), uint32(time.Now().Unix()+300)
+			in := fmt.Sprintf("rsa-bits=%d alg=%d", bits, alg)
+			out, err := s.Sign(priv, m)
+			if err != nil {
+				c.Pred("rsa-sizes", "sig0-sign", in, false, err.Error(), "nil", true)
+				continue
+			}
+			res := guard(func() string {
+				var mm dns.Msg
+				if e := mm.Unpack(out); e != nil || len(mm.Extra) == 0 {
+					return "signed message does not decode"
+				}
+				sg, ok := mm.Extra[len(mm.Extra)-1].(*dns.SIG)
+				if !ok {
+					return "no SIG record"
+				}
+				if e := sg.Verify(k, out); e != nil {
+					return "verify: " + e.Error()
+				}
+				return "ok"
+			})
+			c.Pred("rsa-sizes", "sig0-verifies", in, res == "ok", res, "ok", true)
+		}
+	}
 }
 
 // walkClass: coarse outcome of the implementation for comparison with the model's walk on truncated
